@@ -22,7 +22,34 @@ def _load_specs():
     return REG
 
 
-def run_unit(kind, key, tier, known, seed=0):
+_CTX = dict()
+
+
+def _solve_one(i):
+    res, known, reg = _CTX['res'], _CTX['known'], _CTX['reg']
+    tier, dump, timeout = _CTX['tier'], _CTX['dump'], _CTX['timeout']
+    o = res.obls[i]
+    inputs = res.inputs.get(o.variant, res.inputs.get('', {}))
+    both = dict(inputs)
+    for k, v in o.at.items():
+        both['at:' + k] = v
+    solve_obligation(o, timeout, dump_dir=dump, inputs=both)
+    d = dict(name=o.name, kind=o.kind, status=o.status,
+             backend=o.backend, time_s=round(o.time_s, 4),
+             line=o.lineno, note=o.note, model=o.model,
+             smt2=getattr(o, 'smt2', None), variant=o.variant,
+             reason=getattr(o, 'reason', None), known=None)
+    if o.status == 'failed' and o.kind != 'canary':
+        d['known'] = _match_known(o, res, known, reg, timeout)
+        d['model'] = o.model
+    if tier == 'thorough' and o.status == 'discharged' and \
+       d['smt2'] and o.kind != 'canary':
+        from .solve import run_cvc5
+        d['cvc5'] = run_cvc5(d['smt2'], 20)
+    return d
+
+
+def run_unit(kind, key, tier, known, seed=0, inner=1):
     '''worker: verify one function or lemma; returns plain data'''
     t0 = time.time()
     try:
@@ -56,25 +83,17 @@ def run_unit(kind, key, tier, known, seed=0):
             res = verify_function(reg.get(key), reg)
         timeout = 10 if tier == 'quick' else 60
         dump = os.path.join(OUT, 'smt', _safe(res.short))
-        out_obls = []
-        for o in res.obls:
-            inputs = res.inputs.get(o.variant, res.inputs.get('', {}))
-            both = dict(inputs)
-            for k, v in o.at.items():
-                both['at:' + k] = v
-            solve_obligation(o, timeout, dump_dir=dump, inputs=both)
-            d = dict(name=o.name, kind=o.kind, status=o.status,
-                     backend=o.backend, time_s=round(o.time_s, 4),
-                     line=o.lineno, note=o.note, model=o.model,
-                     smt2=getattr(o, 'smt2', None), variant=o.variant,
-                     reason=getattr(o, 'reason', None), known=None)
-            if o.status == 'failed' and o.kind != 'canary':
-                d['known'] = _match_known(o, res, known, reg, timeout)
-            if tier == 'thorough' and o.status == 'discharged' and \
-               d['smt2'] and o.kind != 'canary':
-                from .solve import run_cvc5
-                d['cvc5'] = run_cvc5(d['smt2'], 20)
-            out_obls.append(d)
+        _CTX.update(res=res, known=known, reg=reg, tier=tier, dump=dump,
+                    timeout=timeout)
+        n = len(res.obls)
+        if inner > 1 and n > 8:
+            # obligations are independent: solve them in forked children (they
+            # inherit the z3 terms; only plain data comes back)
+            import multiprocessing as mp
+            with mp.get_context('fork').Pool(min(inner, n)) as pool:
+                out_obls = pool.map(_solve_one, range(n), chunksize=1)
+        else:
+            out_obls = [_solve_one(i) for i in range(n)]
         return dict(kind=kind, key=key, short=res.short, status=res.status,
                     reason=res.reason, serves=res.serves, file=res.file,
                     sha256=res.sha256, lines=res.lines, dropped=res.dropped,
